@@ -77,18 +77,29 @@ def summarize_compiled_record(rec):
     return out
 
 
-_ROLL = {}
+ALL_ON = dict(params=True, rng=True, inputs=True, state=True, output=True)
 
 
-def rollout_with_record(graph, gs, record=True, max_steps=None, jit=True, settings=None):
+def make_rollout(graph, max_steps=None, jit=True, record=True, settings=None):
+    """one (jitted) rollout function per graph object: eps/step/rng are data, so every episode reuses the compilation.
+    init_record happens inside the traced function: a record holds NodeInfo (with arrays) as static metadata, which a
+    cached jit could not compare on a second call."""
     import jax
 
-    if record:
-        st = settings or dict(params=True, rng=True, inputs=True, state=True, output=True)
-        gs = graph.init_record(gs, **st)
-    f = (lambda g: graph.rollout(g, max_steps=max_steps, carry_only=True))
-    if jit:
-        f = jax.jit(f)
+    st = settings or ALL_ON
+
+    def f(g):
+        if record:
+            g = graph.init_record(g, **st)
+        return graph.rollout(g, max_steps=max_steps, carry_only=True)
+
+    return jax.jit(f) if jit else f
+
+
+def rollout_with_record(graph, gs, record=True, max_steps=None, jit=True, settings=None, fn=None):
+    import jax
+
+    f = fn or make_rollout(graph, max_steps, jit, record, settings)
     out = f(gs)
     jax.block_until_ready(out)
     return out
